@@ -608,6 +608,7 @@ func c09One(cs c09Case, o *core.Outcome, g *c09Go) {
 		// repeat the search under the 5 s MatchTimeout and, on a loaded machine, one of them times out while the other
 		// does not — a difference that says nothing about replacement. Counted, not compared.
 		o.Buckets = append(o.Buckets, "slow-pattern")
+		g.skip = true
 		return
 	}
 	if serr != nil || (rerr != nil && !c09StartAtInvalid(cs)) {
